@@ -167,7 +167,9 @@ static void catch_done (int i) {
   snprintf (scope, sizeof scope, "catch-point:%s", vm_ctx_name ());
   vm_snap_diff (&mon[i].s, &now, 1, 0, scope, vm_ctx_desc);
   if (sp >= start_of_stack && !(sp->type == T_NUMBER && sp->u.number == 0)) {
-    if (vm_ncval < VM_MAXCVAL) snprintf (vm_cval[vm_ncval++], sizeof vm_cval[0], "%s", hx_canon_s (sp));
+    /* catches evaluated by the master's own error_handler() are not errors handed to it: keep them out of the list that is
+     * matched against the master's log */
+    if (current_object != master_ob && vm_ncval < VM_MAXCVAL) snprintf (vm_cval[vm_ncval++], sizeof vm_cval[0], "%s", hx_canon_s (sp));
     vm_catch_err++;
   }
   if (mon[i].expect) {
